@@ -82,6 +82,12 @@ def r2_put(ctx):
     def find(suffix):
         return [(b, a, t) for b, k, a, t in calls if k.endswith(suffix)]
     ins, push, pop, rem, ln = find("HashMap::insert"), find("VecDeque::push_back"), [x for x in calls_of(f, cfg)[0] if "VecDeque::pop_" in x[1]] and [(b, a, t) for b, k, a, t in calls if "VecDeque::pop_" in k], find("HashMap::remove"), find("HashMap::len")
+    peeks = [(b, a, t) for b, k, a, t in calls if k.endswith("VecDeque::front") or k.endswith("VecDeque::back") or k.endswith("VecDeque::get")]
+    if len(pop) == 0 and peeks and len(rem) == 1:
+        ctx.ob(rid, "evicted-key-leaves-the-queue", False,
+               "put removes the oldest key from the map but only looks at the queue's head (front/back/get) instead of popping it: the dead key stays at the head, the next eviction removes nothing (the map grows past its capacity) and a re-inserted key is evicted at once",
+               ctx.where(f, peeks[0][2]["line"]))
+        return
     if not (len(ins) == 1 and len(push) == 1 and len(pop) == 1 and len(rem) == 1 and len(ln) >= 1):
         ctx.lost(rid, "put: one insert / push_back / pop_front / remove and a len (found %d/%d/%d/%d/%d)" % (len(ins), len(push), len(pop), len(rem), len(ln)))
         return
